@@ -1083,9 +1083,20 @@ void caseDuality(vrt::Case& c)
   unique_ptr<Matrix<double>> mX = fromDense(kX, X);
   unique_ptr<DualityDiagram> dd;
   vrt::step("DualityDiagram(X, rw, cw, " + str(want) + ")");
-  vrt::Outcome o = vrt::capture([&] { dd.reset(new DualityDiagram(*mX, rw, cw, want, 1e-7, false)); });
+  const bool viaSetData = c.rng.chance(0.4); // second route: default construction, a first data set, then setData with the case's data
+  vrt::Outcome o = vrt::capture([&] {
+      if (!viaSetData) dd.reset(new DualityDiagram(*mX, rw, cw, want, 1e-7, false));
+      else
+      {
+        dd.reset(new DualityDiagram());
+        RowMatrix<double> first(3, 2);
+        first(0, 0) = 1; first(1, 1) = 2; first(2, 0) = -1; first(2, 1) = 0.5;
+        dd->setData(first, vector<double>(3, 1.0), vector<double>(2, 1.0), 2, 1e-7, false);
+        dd->setData(*mX, rw, cw, want, 1e-7, false);
+      }
+    });
   if (!vrt::expect(o.returned(), "duality.returns", cls, [&] { return head + " => " + o.text(); })) return;
-  vrt::cover("duality:" + orient + ":m" + str(m) + ":kept" + str(kept) + (want > m ? ":reduced" : "") + ":" + KN[kX]);
+  vrt::cover("duality:" + orient + ":m" + str(m) + ":kept" + str(kept) + (want > m ? ":reduced" : "") + ":" + KN[kX] + (viaSetData ? ":setData" : ":ctor"));
   // reference spectrum of the weighted cross-product matrix (the smaller of the two Gram matrices)
   XL = toL(X);
   LMat M2(r, q);
@@ -1186,12 +1197,12 @@ int main(int argc, char** argv)
 {
   vector<vrt::Group> groups = {
     { "fixed", 13, 13, caseFixed, 300, true },
-    { "dense", 14400, 240000, caseDense, 300, false },
-    { "symmetric", 15360, 240000, caseSymmetric, 300, false },
-    { "structured", 28800, 396000, caseStructured, 300, false },
-    { "spectrum", 9600, 120000, caseSpectrum, 300, false },
-    { "functions", 14400, 180000, caseFunctions, 300, false },
-    { "duality", 8000, 100000, caseDuality, 300, false },
+    { "dense", 14400, 720000, caseDense, 300, false },
+    { "symmetric", 15360, 720000, caseSymmetric, 300, false },
+    { "structured", 28800, 1188000, caseStructured, 300, false },
+    { "spectrum", 9600, 360000, caseSpectrum, 300, false },
+    { "functions", 14400, 540000, caseFunctions, 300, false },
+    { "duality", 8000, 300000, caseDuality, 300, false },
   };
   vrt::Meta meta;
   meta.rule = "One case = one real square matrix, n = 1 + index mod 12, flavour = (index div 12) mod #flavours of its group: dense (uniform, gaussian, integers in [-9,9], sparse integers, "
